@@ -22,6 +22,9 @@ def main(argv=None):
     args = ap.parse_args(argv)
     seed = int(os.environ.get("VERIF_SEED", "0") or 0)
     pid = args.pid.upper()
+    if args.tier == "thorough":
+        os.environ.setdefault("SPVERIF_PROOF_BUDGET", "25")
+        os.environ.setdefault("SPVERIF_TASK_TIMEOUT", "1500")
     try:
         mod = importlib.import_module(f".props.{pid.lower()}", __package__)
     except ModuleNotFoundError:
